@@ -1304,6 +1304,131 @@ def ac12_saved_output_identity(fc: FnCls, R: RuleResult) -> int:
     return n
 
 
+# ---------------------------------------------------------------------------------------------------- AC16
+_META_ATTRS = {"shape", "dtype", "device", "requires_grad", "ndim", "is_complex", "layout", "is_cuda", "grad_fn", "is_leaf"}
+_META_CALLS = {"len", "isinstance", "type", "id", "torch.is_tensor", "torch.numel", "torch.is_complex", "callable"}
+_META_METHODS = {"size", "dim", "numel", "ndimension", "is_complex", "is_floating_point", "is_contiguous", "stride", "element_size", "nelement"}
+
+
+def _value_uses(expr: ast.AST, tainted: Set[str]) -> List[ast.Name]:
+    """occurrences of tainted names in `expr` whose *value* (not shape / dtype / None-ness) can influence the result"""
+    out: List[ast.Name] = []
+
+    def walk(e):
+        if isinstance(e, ast.Name):
+            if e.id in tainted:
+                out.append(e)
+            return
+        if isinstance(e, ast.Attribute) and e.attr in _META_ATTRS:
+            return
+        if isinstance(e, ast.Call):
+            fn = ast.unparse(e.func)
+            if fn in _META_CALLS:
+                return
+            if isinstance(e.func, ast.Attribute) and e.func.attr in _META_METHODS:
+                return
+        if isinstance(e, ast.Compare) and len(e.ops) == 1 and isinstance(e.ops[0], (ast.Is, ast.IsNot)):
+            return
+        if isinstance(e, (ast.Lambda, ast.FunctionDef, ast.AsyncFunctionDef)):
+            return
+        for ch in ast.iter_child_nodes(e):
+            walk(ch)
+    walk(expr)
+    return out
+
+
+def _diagnostic_only(ifnode: ast.If, fn: ast.AST) -> bool:
+    """the arms of the `if` only raise, warn or build a message: no name they bind is read outside the `if`, nothing else is stored"""
+    inside = {id(x) for x in ast.walk(ifnode)}
+    bound: Set[str] = set()
+    for arm in (ifnode.body, ifnode.orelse):
+        for st in arm:
+            if isinstance(st, (ast.Raise, ast.Pass)):
+                continue
+            if isinstance(st, ast.Expr) and isinstance(st.value, ast.Call) and ast.unparse(st.value.func) in ("warnings.warn", "warn", "print"):
+                continue
+            if isinstance(st, (ast.Assign, ast.AugAssign)):
+                tgs = st.targets if isinstance(st, ast.Assign) else [st.target]
+                if all(isinstance(t, ast.Name) for t in tgs):
+                    bound |= {t.id for t in tgs}
+                    continue
+            if isinstance(st, ast.If) and _diagnostic_only(st, fn):
+                continue
+            return False
+    for x in ast.walk(fn):
+        if isinstance(x, ast.Name) and isinstance(x.ctx, ast.Load) and x.id in bound and id(x) not in inside:
+            return False
+    return True
+
+
+def ac16_cotangent_control_flow(fc: FnCls, R: RuleResult) -> int:
+    """In a backward pass the *values* of the incoming cotangents never steer control flow.  A recorded backward (create_graph=True) is a
+    differentiable function of the cotangents; a branch / trip count / slice bound decided by `g.any()`, `g == 0`, `g.abs().max() < eps`,
+    `g.nonzero()` .. makes it piecewise: on the taken piece the dependence on the tested cotangent is dropped, so every second-order
+    quantity through it (Hessian-vector products, the double-backward trick for jvp, mixed derivatives w.r.t. a weight that is zero now)
+    is silently wrong although every first-order value is unchanged.  Tests of None-ness, shape, dtype, requires_grad are not values."""
+    bw = fc.backward
+    mod = bw.module
+    family = [f for f in mod.functions.values() if f is bw or f.qualname.startswith(bw.qualname + ".")]
+    ps = bw.params()[1:] + ([bw.vararg()] if bw.vararg() else [])
+    tainted: Set[str] = set(ps)
+    # propagate through plain value flow inside backward and its nested functions (names are function-local, but closures read them)
+    changed = True
+    rounds = 0
+    while changed and rounds < 20:
+        changed = False
+        rounds += 1
+        for f in family:
+            for st in own_nodes(f.node):
+                tg, val = None, None
+                if isinstance(st, ast.Assign):
+                    tg, val = st.targets, st.value
+                elif isinstance(st, ast.AugAssign):
+                    tg, val = [st.target], st.value
+                elif isinstance(st, (ast.For, ast.comprehension)):
+                    tg, val = [st.target], st.iter
+                if tg is None or val is None:
+                    continue
+                if not _value_uses(val, tainted):
+                    continue
+                for t in tg:
+                    for n_ in ast.walk(t):
+                        if isinstance(n_, ast.Name) and isinstance(n_.ctx, ast.Store) and n_.id not in tainted:
+                            tainted.add(n_.id)
+                            changed = True
+    n = 0
+    for f in family:
+        for node in own_nodes(f.node):
+            tests = []
+            if isinstance(node, (ast.If, ast.While, ast.IfExp)):
+                tests.append(node.test)
+            elif isinstance(node, ast.Assert):
+                continue
+            elif isinstance(node, ast.comprehension):
+                tests.extend(node.ifs)
+            elif isinstance(node, ast.Call) and ast.unparse(node.func) == "range":
+                tests.extend(node.args)               # a trip count
+            elif isinstance(node, ast.Slice):
+                tests.extend(x for x in (node.lower, node.upper, node.step) if x is not None)
+            diagnostic = isinstance(node, ast.If) and _diagnostic_only(node, f.node)
+            for t in tests:
+                n += 1
+                uses = _value_uses(t, tainted)
+                what = "%s: `%s`" % (f.qualname.split(".")[-1], ast.unparse(t)[:60])
+                if uses and diagnostic:
+                    R.ok(f.fq, what + " (diagnostic only: the arms raise / warn and bind nothing that is read afterwards)")
+                elif uses:
+                    R.bad(f, enclosing_stmt(node) if not isinstance(node, ast.stmt) else node,
+                          "the value of a cotangent (`%s`) steers the control flow / an index range of the backward pass: in a recorded backward the "
+                          "branch that is taken no longer depends on it, so second-order gradients through this cotangent are silently wrong "
+                          "(first-order values are unchanged)" % uses[0].id, what=what)
+                else:
+                    R.ok(f.fq, what)
+    if n == 0:
+        R.ok(bw.fq, "backward has no data-dependent control flow at all")
+    return n
+
+
 # ---------------------------------------------------------------------------------------------------- AC13
 _FUNCTIONAL_PARAM_KW = {"quad": "params", "_mcquad": "fparams", "mcquad": "fparams", "solve_ivp": "params", "rootfinder": "params",
                         "equilibrium": "params", "minimize": "params"}
@@ -1578,6 +1703,9 @@ def hygiene_rules(model: Model, fc: FnCls, prop: str, min_copies: int = 1, min_o
     R13 = RuleResult(prop, "AC13", "pull-back inputs are fresh copies made in backward (partial derivatives), never the saved tensors themselves", min_instances=1)
     ac13_independent_inputs(model, fc, R13)
     out.append(R13)
+    R16 = RuleResult(prop, "AC16", "the values of the incoming cotangents never steer control flow or index ranges in backward (None / shape / dtype tests are fine)", min_instances=1)
+    ac16_cotangent_control_flow(fc, R16)
+    out.append(R16)
     R14 = RuleResult(prop, "AC14", "in backward the user's function is only evaluated with its object parameters under control (useobjparams / disable_state_change)", min_instances=0)
     ac14_evaluation_context(fc, R14)
     out.append(R14)
